@@ -356,6 +356,7 @@ package collection
 //@   flag modifies_typeargs
 //@   flag old_at_lock
 //@   requires rwOK(rw)
+//@   call add#*: assert heldw(rw.lock)
 //@   ghost at after updateOffset#0: lemma modWrap(rw.offset, rw.size)
 //@   ghost at after updateOffset#0: rwBagAt[rw][rwE[rw]][v] = rwBagAt[rw][rwE[rw]][v] + 1
 //@   ghost at after updateOffset#0: rwAdded[rw][v] = rwAdded[rw][v] + 1
@@ -381,6 +382,7 @@ package collection
 //@   requires rwOK(rw) && fn != nil
 //@   flag callbacks_noheap
 //@   iterates fn count rwCount(rw) arg rw.win.buckets[ringAt(rwStart(rw)+idx, rw.size)]
+//@   call reduce#*: assert held(rw.lock)
 //@   ghost at after RLock#0: lemma modWrap(rw.offset + rwSpan(rw) + 1, rw.size)
 //@   ghost at after RLock#0: lemma ringAll(rwStart(rw), rw.size)
 //@   ensures  implies(old(rwInv(rw)), forall(idx.(int), implies(0 <= idx && idx < rwCount(rw),
